@@ -1,6 +1,7 @@
 package main
 
 import (
+	"runtime"
 	"context"
 	"errors"
 	"fmt"
@@ -559,6 +560,10 @@ func init() {
 				}
 			})
 			defer verifhook.Set(nil)
+		}
+		if v, ok := p["procs"]; ok { // run with that many Ps (1: the goroutines of the run take turns on one processor)
+			old := runtime.GOMAXPROCS(atoi(v))
+			defer runtime.GOMAXPROCS(old)
 		}
 		// how long this process went without being scheduled during the run (the longest gap a 2 ms heartbeat saw): the
 		// monitor widens its wall-clock bounds by it, so a stalled machine does not look like a late iteration
